@@ -269,7 +269,9 @@ Reify(S, qs) ==
       vs == VarSeq(ListOf(qt))
       ren == AnyRen(vs)
       live == {NeqUnder(c, S.smap) : c \in {d \in S.cs : d[1] = "neq"}}
-      kept == {c \in live : c[1] = "neq" /\ NeqVars(c) \subseteq DOMAIN ren}
+      walked == {<<"neq", [x \in DOMAIN c[2] |-> WalkStar(c[2][x], S.smap)]>> :
+                    c \in {d \in live : d[1] = "neq"}}
+      kept == {c \in walked : NeqVars(c) \subseteq DOMAIN ren}
   IN [q |-> [i \in 1..Len(qt) |-> Inst(qt[i], ren)], cs |-> {RenNeq(c, ren) : c \in kept}]
 
 (* The answers of a query case, in reference (depth-first) order *)
